@@ -28,7 +28,25 @@ GEN_SPEC = {"items": [
     {"kind": "calls", "file": "lib/executors/chunkexecutor.go", "func": "chunkContainer.RemoveAll", "as": "sk_chunk_RemoveAll"},
     {"kind": "calls", "file": "lib/executors/chunkexecutor.go", "func": "chunkContainer.Execute", "as": "sk_chunk_Execute"},
     {"kind": "calls", "file": "lib/syncx/barrier.go", "func": "Barrier.Guard", "as": "sk_barrier_Guard"},
+    # the executors' concrete users
+    {"kind": "const", "file": "lib/store/sqlx/bulkinserter.go", "name": "maxBulkRows"},
+    {"kind": "calls", "file": "lib/store/sqlx/bulkinserter.go", "func": "dbInserter.AddTask", "as": "sk_db_AddTask"},
+    {"kind": "calls", "file": "lib/store/sqlx/bulkinserter.go", "func": "dbInserter.RemoveAll", "as": "sk_db_RemoveAll"},
+    {"kind": "calls", "file": "lib/store/sqlx/bulkinserter.go", "func": "dbInserter.Execute", "as": "sk_db_Execute"},
+    {"kind": "calls", "file": "lib/store/sqlx/bulkinserter.go", "func": "BulkInserter.Insert", "as": "sk_bi_Insert"},
+    {"kind": "calls", "file": "lib/store/sqlx/bulkinserter.go", "func": "BulkInserter.Flush", "as": "sk_bi_Flush"},
+    {"kind": "calls", "file": "lib/store/sqlx/bulkinserter.go", "func": "NewBulkInserter", "as": "sk_bi_New"},
+    {"kind": "calls", "file": "lib/stat/metrics.go", "func": "metricsContainer.AddTask", "as": "sk_mc_AddTask"},
+    {"kind": "calls", "file": "lib/stat/metrics.go", "func": "metricsContainer.RemoveAll", "as": "sk_mc_RemoveAll"},
+    {"kind": "calls", "file": "lib/stat/metrics.go", "func": "Metrics.Add", "as": "sk_m_Add"},
+    {"kind": "calls", "file": "lib/stat/metrics.go", "func": "Metrics.AddDrop", "as": "sk_m_AddDrop"},
+    {"kind": "calls", "file": "lib/stat/metrics.go", "func": "NewMetrics", "as": "sk_m_New"},
 ]}
+PKGS = {"pe": ("./lib/executors", "^TestVerifDriver$"), "sqlx": ("./lib/store/sqlx", "^TestVerifDriverC16$"),
+        "stat": ("./lib/stat", "^TestVerifDriverC16$")}
+SQLX_N = 6
+STAT_N = 24
+DROP_BASE = 900
 QUICK_N = 300
 THOROUGH_N = 3000
 SHARD = 60
@@ -172,13 +190,97 @@ def _exhaustive():
 
 
 def drive(cases, tier):
-    """thorough tier: the driver runs under the race detector"""
-    return vlib.run_driver(GO_PKG, cases, name=ID + ("s" if tier == "search" else ""), timeout=DRIVER_TIMEOUT,
-                           race=(tier == "thorough"))
+    """cases go to the driver of their target package (executors / sqlx.BulkInserter / stat.Metrics);
+    thorough tier: the drivers run under the race detector"""
+    obs = [None] * len(cases)
+    logs = []
+    for tgt, (pkg, run) in PKGS.items():
+        idx = [k for k, c in enumerate(cases) if c.get("target", "pe") == tgt]
+        if not idx:
+            continue
+        o, log = vlib.run_driver(pkg, [cases[k] for k in idx], name=ID + tgt + ("s" if tier == "search" else ""),
+                                 timeout=DRIVER_TIMEOUT, run=run, race=(tier == "thorough"))
+        logs.append(log)
+        if o is None:
+            return None, "\n".join(logs)
+        for k, ob in zip(idx, o):
+            obs[k] = ob
+    return obs, "\n".join(logs)
+
+
+def _sqlx_case(rng, directed=None):
+    """BulkInserter script; r tracks the rows in the container (maxBulkRows = 1000)."""
+    M = 1000
+    ops, r = [], 0
+
+    def ins(n):
+        nonlocal r
+        ops.append({"op": "insert", "n": n})
+        r = (r + n) % M
+
+    def overlap(e1, e2, after):
+        nonlocal r
+        ops.append({"op": "flush"})      # the container is empty: the sizes below are exact
+        r = 0
+        first = (M - r) + e1
+        second = M - e1 + e2
+        ops.append({"op": "overlap", "first": first, "second": second, "after": after})
+        r = after + e2
+
+    if directed == 0:
+        ins(rng.randint(1, 9)); overlap(0, 0, rng.randint(1, 30)); ins(3)
+    elif directed == 1:
+        overlap(rng.randint(1, 40), rng.randint(1, 40), rng.randint(50, 300)); ops.append({"op": "tick"}); ops.append({"op": "tick"})
+    else:
+        for _ in range(rng.randint(2, 6)):
+            x = rng.random()
+            if x < 0.4:
+                ins(rng.choice([1, 2, 5, 17, 30, 999, 1000, 1001, 1003, 1990, 2000, 2004]))
+            elif x < 0.6:
+                ops.append({"op": "tick"})
+            elif x < 0.75:
+                ops.append({"op": "flush"}); r = 0
+            else:
+                overlap(rng.randint(0, 30), rng.randint(0, 30), rng.randint(0, 120))
+    ops.append({"op": "flush"})
+    return {"target": "sqlx", "suffix": rng.random() < 0.5, "chunk": False, "max": M, "ops": ops}
+
+
+def _stat_case(rng):
+    ops = []
+
+    def simple():
+        x = rng.random()
+        if x < 0.55:
+            return {"op": "add", "n": rng.randint(1, 6)}
+        return {"op": "drop", "n": rng.randint(1, 3)}
+
+    for _ in range(rng.randint(2, 9)):
+        x = rng.random()
+        if x < 0.5:
+            ops.append(simple())
+        elif x < 0.7:
+            ops.append({"op": "tick"})
+        elif x < 0.8:
+            ops.append({"op": "flush"})
+        else:
+            threads = [[simple() for _ in range(rng.randint(1, 3))] for _ in range(rng.randint(1, 3))]
+            if rng.random() < 0.5:
+                threads.append([{"op": "tick"} for _ in range(rng.randint(1, 2))])
+            ops.append({"op": "par", "threads": threads})
+    ops.append({"op": "flush"})
+    return {"target": "stat", "chunk": False, "max": 10 ** 9, "ops": ops}
+
+
+def _users(rng, tier):
+    k = 4 if tier == "thorough" else 1
+    out = [_sqlx_case(rng, 0), _sqlx_case(rng, 1)] + [_sqlx_case(rng) for _ in range(SQLX_N * k - 2)]
+    out += [_stat_case(rng) for _ in range(STAT_N * k)]
+    return out
 
 
 def generate(rng, tier, n):
-    cases = _directed(rng)
+    cases = _directed(rng) + _users(rng, tier)
     if tier == "thorough":
         cases += _exhaustive()
     while len(cases) < n:
@@ -195,7 +297,13 @@ def generate(rng, tier, n):
                 ops += _seq_ops(rng, ids, chunk, rng.randint(0, 3))
         ops.append({"op": "wait"})
         cases.append({"chunk": chunk, "max": mx, "ops": ops})
-    return cases[:max(n, 1)]
+    cases = cases[:max(n, 1)]
+    # the BulkInserter cases are large (>= 1000 rows each): at most one per Coq shard
+    big = [c for c in cases if c.get("target") == "sqlx"]
+    rest = [c for c in cases if c.get("target") != "sqlx"]
+    for k, c in enumerate(big):
+        rest.insert(min(k * SHARD + 1, len(rest)), c)
+    return rest
 
 
 def search(rng, problems):
@@ -206,6 +314,8 @@ def search(rng, problems):
 
 
 def _is_seq(case):
+    if case.get("target") == "stat":
+        return all(o["op"] != "par" for o in case["ops"])
     return all(o["op"] in ("add", "tick", "advance", "flush", "wait", "racetick") for o in case["ops"])
 
 
@@ -219,7 +329,72 @@ def _walk(ops):
             yield x
 
 
+TAIL = "%s false 0%%nat [] None"     # c_model c_stat c_drops c_reports c_big
+
+
+def _encode_sqlx(case, obs):
+    ops, nxt = [], 1
+    for o in case["ops"]:
+        if o["op"] == "insert":
+            ops.append("BIns %d%%positive %s" % (nxt, cnat(o["n"])))
+            nxt += o["n"]
+        elif o["op"] == "overlap":
+            n = o["first"] + o["second"] + o["after"]
+            ops.append("BIns %d%%positive %s" % (nxt, cnat(n)))
+            nxt += n
+        elif o["op"] == "tick":
+            ops.append("BTick")
+        elif o["op"] == "flush":
+            ops.append("BFlush")
+    cN = vlib.cN
+    adds = ["(%d%%positive, %s, %s)" % (a["id"], cN(a["call"]), cN(a["ret"])) for a in sorted(obs["adds"], key=lambda a: a["id"])]
+    calls = ["(%s, %s)" % (cN(k["call"]), cN(k["ret"])) for k in obs["calls"]]
+    ticks = ["(%s, %s, %s)" % (cN(t["seq"]), cbool(t["delivered"]), cN(t["done"])) for t in obs["ticks"]]
+    batches = ["(%s, %s, %s)" % (clist(["%d%%positive" % x for x in b["ids"]]) if all(x > 0 for x in b["ids"]) else "[]",
+                                  cN(b["start"]), cN(b["end"])) for b in obs["batches"]]
+    bad = bool(obs["hung"]) or any(x <= 0 for b in obs["batches"] for x in b["ids"])
+    big = "(Some (mkbig %s %s %s %s %s %s %s))" % (clist(ops), clist(adds), clist(calls), clist(ticks), clist(batches),
+                                                    cbool(bad), cnat(obs["pending"]))
+    return "mkcase false %s [] false [] 0%%nat [] [] [] [] [] %s %s 2%%nat false 0%%nat [] %s" % (
+        cZ(case["max"]), cbool(bad), cnat(obs["pending"]), big)
+
+
+def _encode_stat(case, obs):
+    seq = _is_seq(case)
+    ops, nxt, nd = [], 1, 0
+    sizes = []
+    for o in _walk(case["ops"]):
+        if o["op"] == "add":
+            nxt += o["n"]
+    sizes = [cpair(cnat(i), cZ(i)) for i in range(1, nxt)]
+    nxt = 1
+    if seq:
+        for o in case["ops"]:
+            if o["op"] == "add":
+                for _ in range(o["n"]):
+                    ops.append("SAdd %s" % cnat(nxt))
+                    nxt += 1
+            elif o["op"] == "drop":
+                for _ in range(o["n"]):
+                    ops.append("SAdd %s" % cnat(DROP_BASE + nd))
+                    nd += 1
+            elif o["op"] == "tick":
+                ops.append("STick")
+            elif o["op"] == "flush":
+                ops.append("SFlush")
+    adds = ["mkadd %s %s %s" % (cnat(a["id"]), cnat(a["call"]), cnat(a["ret"])) for a in obs["adds"]]
+    calls = ["mkcall false %s %s" % (cnat(k["call"]), cnat(k["ret"])) for k in obs["calls"]]
+    ticks = ["mktick %s %s %s" % (cnat(t["seq"]), cbool(t["delivered"]), cnat(t["done"])) for t in obs["ticks"]]
+    batches = ["mkbatch %s %s %s" % (clist([cnat(x) for x in b["ids"]]), cnat(b["start"]), cnat(b["end"])) for b in obs["batches"]]
+    reps = ["mkrep %s %s %s %s %s" % (cnat(b["drops"]), cZ(b["dur_ms"]), cZ(b["count"]), cnat(b["rdrops"]), cZ(b["sum_ms"])) for b in obs["batches"]]
+    return "mkcase false %s %s %s %s %s %s %s %s %s [] %s %s %s true %s %s None" % (
+        cZ(case["max"]), clist(sizes), cbool(seq), clist(ops), cnat(len(case["ops"])),
+        clist(adds), clist(calls), clist(ticks), clist(batches), cbool(bool(obs["hung"])), cnat(obs["pending"]),
+        cnat(2 if seq else 1), cnat(obs.get("drops", 0)), clist(reps))
+
+
 def encode(case, obs):
+    tgt = case.get("target", "pe")
     if "adds" not in obs:
         obs = {"adds": [], "calls": [], "ticks": [], "batches": [], "perop": [], "hung": obs.get("driver_panic") or obs.get("error") or "?", "pending": 0}
     sizes = []
@@ -229,6 +404,10 @@ def encode(case, obs):
         if o["op"] == "waitrace":
             sizes.append(cpair(cnat(o["id"]), cZ(o.get("size", 0))))
             sizes.append(cpair(cnat(o["n"]), cZ(o.get("size", 0))))
+    if tgt == "sqlx":
+        return _encode_sqlx(case, obs)
+    if tgt == "stat":
+        return _encode_stat(case, obs)
     seq = _is_seq(case)
     ops = []
     if seq:
@@ -251,14 +430,19 @@ def encode(case, obs):
     ticks = ["mktick %s %s %s" % (cnat(t["seq"]), cbool(t["delivered"]), cnat(t["done"])) for t in obs["ticks"]]
     batches = ["mkbatch %s %s %s" % (clist([cnat(x) for x in b["ids"]]), cnat(b["start"]), cnat(b["end"])) for b in obs["batches"]]
     perop = ["mkop %s %s %s %s" % (cnat(p["nb"]), cbool(p["guarded"]), cnat(p["starts"]), cnat(p["stops"])) for p in obs["perop"]]
-    return "mkcase %s %s %s %s %s %s %s %s %s %s %s %s %s" % (
+    return "mkcase %s %s %s %s %s %s %s %s %s %s %s %s %s %s" % (
         cbool(case["chunk"]), cZ(case["max"]), clist(sizes), cbool(seq), clist(ops), cnat(len(case["ops"])),
-        clist(adds), clist(calls), clist(ticks), clist(batches), clist(perop), cbool(bool(obs["hung"])), cnat(obs["pending"]))
+        clist(adds), clist(calls), clist(ticks), clist(batches), clist(perop), cbool(bool(obs["hung"])), cnat(obs["pending"]),
+        TAIL % cnat(0 if seq else 1))
 
 
 def nontrivial(case, obs):
     if "adds" not in obs or obs["hung"]:
         return False
+    if case.get("target") == "sqlx":
+        return any(o["op"] == "overlap" for o in case["ops"]) or len(obs["batches"]) >= 2
+    if case.get("target") == "stat":
+        return len(obs["adds"]) >= 3 and len(obs["batches"]) >= 2
     nb = len(obs["batches"])
     if len(obs["adds"]) < 3 or nb < 2:
         return False
@@ -274,6 +458,13 @@ def nontrivial(case, obs):
 
 
 def bucket(case, obs):
+    if case.get("target") in ("sqlx", "stat"):
+        out = ["target:" + case["target"]] + ["op:" + case["target"] + "." + o["op"] for o in case["ops"]]
+        if "adds" in obs:
+            out.append(case["target"] + "-batches=%d" % min(len(obs["batches"]), 12))
+            if obs["hung"]:
+                out.append("obs:HUNG")
+        return out
     out = ["chunk" if case["chunk"] else "bulk", "max=%d" % case["max"], "seq" if _is_seq(case) else "par"]
     for o in case["ops"]:
         out.append("op:" + o["op"])
@@ -293,6 +484,12 @@ def bucket(case, obs):
 
 
 def classify(case, obs):
+    if case.get("target") in ("sqlx", "stat"):
+        return None
+    return _classify_pe(case, obs)
+
+
+def _classify_pe(case, obs):
     """KNOWN finding class: a Wait that overlaps another goroutine's threshold-reaching Add returns before a task
     whose Add had returned earlier has executed.  The class applies only when that is the ONLY anomaly of the case:
     nothing hung, every added task executed exactly once, in add order, batches within the bulk bound, and the
